@@ -212,7 +212,8 @@ pub fn c09(tier: &str) -> i32 {
                 (false, true) => vec![(2, 2, 1), (1, 1, 2)],
             };
             for (d, m, b) in boxes {
-                let opts = Opts { max_depth: d, max_memo: m, dev_budget: b, frame: FrameSel::Both, ref_in_key: false, ..Opts::default() };
+                // gate draws come from fuzzer bytes: besides "fires" (0.0) and "declines" (2.0) also NaN and a negative value
+                let opts = Opts { max_depth: d, max_memo: m, dev_budget: b, frame: FrameSel::Both, ref_in_key: false, gate_alphabet: if b <= 1 { vec![2.0, f64::NAN, -1.0] } else { vec![] }, ..Opts::default() };
                 let t0 = Instant::now();
                 let ex = Explorer { base_cfg: cfg.clone(), opts, monitor: &guard, xval_full: Default::default(), choice_discovery: Default::default() };
                 let out = ex.explore(None);
@@ -278,6 +279,12 @@ pub fn c09(tier: &str) -> i32 {
         for rate in [f64::NAN, -1.0, 7.0, f64::INFINITY, f64::NEG_INFINITY, 0.0, 1.0] {
             for uns in [false, true] {
                 knob_cfgs.push(Cfg::new(p).range(3, 12).flags(true, true).muts(&FULL, rate, uns));
+            }
+        }
+        // interior rates with every mutator, safe and unsafe (long inputs make the gate draws arbitrary floats)
+        for rate in [0.1, 0.5, 0.999] {
+            for uns in [false, true] {
+                knob_cfgs.push(Cfg::new(p).range(20, 60).flags(true, true).muts(&FULL, rate, uns));
             }
         }
         knob_cfgs.push(Cfg::new(p).range(9, 2));
